@@ -74,6 +74,7 @@ seeded/C17-b/patch.diff C17
 seeded/C19-b/patch.diff C19
 seeded/C20-b/patch.diff C20
 seeded/C07-b/patch.diff C07
+seeded/C08-b/patch.diff C08
 selftest/mutants/F5-reintroduce.patch C06
 selftest/mutants/F6-reintroduce.patch C06
 LIST
